@@ -117,13 +117,13 @@ class C16(Prop):
                     fails.append({"msg": "obs %d: input differing only at masked paths: outcome=%s, same stored text=%s"
                                   % (idx, o["outcome"], kv["pre"] == first[0]["pre"])})
             elif role == "unmasked":
-                if o["outcome"] != "failed:diff" or o["errors"] != "1" or o["writes"] != "-":
+                if not o["outcome"].startswith("failed") or o["errors"] != "1" or o["writes"] != "-":
                     fails.append({"msg": "obs %d: input differing at an unmasked path: outcome=%s errors=%s" % (idx, o["outcome"], o["errors"])})
         return fails
 
     def nontrivial(self, case, ops, results):
         oc = [r[2]["outcome"] for r in results if r[0] == "obs"]
-        return "passed" in oc and "failed:diff" in oc
+        return "passed" in oc and any(x.startswith("failed") for x in oc)
 
     def stats(self, case, ops, results, dist):
         dist["api:" + case["meta"].get("api", "?")] += 1
